@@ -48,7 +48,8 @@ ASSUMPTIONS = ['reference = io.BytesIO() / io.StringIO() (lines end at \\n only)
 
 SELFTEST_MUTANT = 'bytes-len-without-flush'
 REQUIRED_PROBES = ['rollover_mid_history', 'scheduler_rollover', 'mfr_read_crosses_member_boundary',
-                   'mfr_sized_read_after_seek0', 'rollover_copy_failed_state_intact']
+                   'mfr_sized_read_after_seek0', 'rollover_copy_failed_state_intact',
+                   'threads_with_private_files_rolled_over']
 iou = None
 _REAL_OS = None
 
@@ -59,6 +60,10 @@ def setup(root):
     import boltons.ioutils as m
     iou = m
     _REAL_OS = os
+    # threads that each use a file of their own are pre-empted at every bytecode of ioutils.py; the
+    # instrumentation is switched on only for the duration of a threaded run
+    from engines import threadsim
+    threadsim.install_dormant(m)
 
 
 class _OsProxy:
@@ -101,7 +106,25 @@ def _chunk(rng, text, n):
     return b''.join(rng.choice(BYTE_ALPHA) for _ in range(n)).hex()
 
 
+def _gen_threads(rng):
+    """Two or three threads, each with a spooled file of its own (nothing is shared by the callers)."""
+    text = rng.random() < 0.5
+    threads, sizes = [], []
+    for t in range(rng.choice([2, 2, 3])):
+        ops = [['write', _chunk(rng, text, rng.choice([1, 3, 7, 20, 50]))] for _ in range(rng.randint(1, 4))]
+        if rng.random() < 0.5:
+            ops.insert(rng.randint(1, len(ops)), ['getvalue'])
+        threads.append(ops)
+        sizes.append(rng.choice([1, 5, 16, 40]))
+    return {'mode': 'threads-text' if text else 'threads-bytes', 'threads': threads, 'max_size': sizes,
+            'bufsize': rng.choice([1, 8, 8192]), 'chunk': rng.choice([21333, 7, 3]),
+            'sched': {'kind': 'random', 'seed': rng.getrandbits(32), 'p': rng.choice([0.02, 0.1, 0.3])}}
+
+
 def gen_case(rng, tier):
+    r0 = rng.random()
+    if r0 < 0.03:
+        return _gen_threads(rng)
     if rng.random() < 0.2:
         return _gen_mfr(rng)
     text = rng.random() < 0.6
@@ -212,6 +235,8 @@ def fixed_cases(tier):
 
 
 def case_size(case):
+    if 'threads' in case:
+        return sum(len(t) + sum(len(o[1]) for o in t if o[0] == 'write') for t in case['threads'])
     return len(case['ops']) + sum(len(o[1]) for o in case['ops'] if o[0] == 'write') + len(case.get('replicas', [])) \
         + len(case.get('content', '')) // 2
 
@@ -298,7 +323,85 @@ def _do(f, op, text, ref_len):
         return ('exc', '%s: %s' % (type(e).__name__, str(e)[:80]))
 
 
+def _run_threads(case):
+    from engines import threadsim
+    out = core.Outcome()
+    log = core.EventLog(keep=False)
+    text = case['mode'] == 'threads-text'
+    iou.READ_CHUNK_SIZE = case.get('chunk', 21333)
+    nthreads = len(case['threads'])
+    total = sum(len(op[1]) for t in case['threads'] for op in t if op[0] == 'write')
+    sched = threadsim.Scheduler(threadsim.make_policy(case['sched'], nthreads), log, step_cap=400000 + 4000 * total)
+    fs = simfs.SimFS()
+    sim = simfs.Sim(fs, simfs.Plan(), None, blksize=8192)
+    fac = _install(sim, case['bufsize'])
+    cls = iou.SpooledStringIO if text else iou.SpooledBytesIO
+    files = [cls(max_size=m) for m in case['max_size']]
+    seen = [[] for _ in range(nthreads)]
+
+    def program(tid, ops):
+        def run():
+            f = files[tid]
+            for i, op in enumerate(ops):
+                sched.yield_point(('invoke', tid, i))
+                r = _do(f, op, text, 0)
+                seen[tid].append((op, r))
+                sched.yield_point(('return', tid, i))
+        return run
+
+    try:
+        for tid, ops in enumerate(case['threads']):
+            sched.spawn(program(tid, ops))
+        threadsim.tracing(iou, True)
+        try:
+            reason = sched.run()
+        finally:
+            threadsim.tracing(iou, False)
+        out.steps = sched.step
+        out.sim_time = float(sched.step)
+        if reason in ('deadlock', 'no-progress'):
+            out.fail(reason, sched.step, 'threads that each use a spooled file of their own: %s' % reason, mode=case['mode'])
+        else:
+            for tid, ops in enumerate(case['threads']):
+                ref = io.StringIO() if text else io.BytesIO()
+                for (op, got) in seen[tid]:
+                    want = _do(ref, op, text, 0)
+                    if op[0] == 'write':
+                        if got[0] != 'ok':
+                            out.fail('spooled-diverges', tid, 'thread %d (own file, max_size=%d) %r: got %r'
+                                     % (tid, case['max_size'][tid], op, got), mode=case['mode'], op=op[0])
+                            break
+                    elif got != want:
+                        out.fail('spooled-diverges', tid, 'thread %d (own file, max_size=%d) %r: got %r, io reference %r, while other '
+                                 'threads used files of their own' % (tid, case['max_size'][tid], op, got, want),
+                                 mode=case['mode'], op=op[0])
+                        break
+                if out.violation:
+                    break
+                g = _do(files[tid], ['getvalue'], text, 0)
+                if g != ('ok', ref.getvalue()):
+                    out.fail('content-diverges', tid, 'thread %d (own file, max_size=%d): final content %r, io reference %r, while '
+                             'other threads used files of their own' % (tid, case['max_size'][tid], g, ref.getvalue()),
+                             mode=case['mode'], op='getvalue')
+                    break
+            if out.violation is None and fac.made and sched.switches:
+                out.probe('threads_with_private_files_rolled_over')
+                out.nontrivial.append(core.h64([case['mode'], case['threads'], case['max_size'],
+                                                [(f_, t_) for _s, f_, t_, _w in sched.switches][:40]]))
+    finally:
+        for f in files:
+            try:
+                f.close()
+            except Exception:
+                pass
+        sim.dispose()
+    out.digest = log.digest()
+    return out
+
+
 def run_case(case):
+    if case['mode'].startswith('threads'):
+        return _run_threads(case)
     if case['mode'].startswith('mfr'):
         return _run_mfr(case)
     out = core.Outcome()
@@ -571,6 +674,25 @@ def _run_mfr(case):
 
 
 def shrink(case, fails):
+    if case['mode'].startswith('threads'):
+        from simkit.core import ddmin
+        best = [dict(case)]
+
+        def fss(cand):
+            for seed in range(10):
+                for p in (0.1, 0.3, 0.02):
+                    c2 = dict(cand, sched={'kind': 'random', 'seed': seed, 'p': p})
+                    if fails(c2):
+                        best[0] = c2
+                        return True
+            return False
+        for t in range(len(case['threads'])):
+            def test(sub, t=t):
+                ths = [list(x) for x in best[0]['threads']]
+                ths[t] = list(sub)
+                return fss(dict(best[0], threads=ths))
+            ddmin(list(best[0]['threads'][t]), test)
+        return best[0]
     c = shrinkers.shrink_list_field(case, 'ops', fails)
     if 'replicas' in c:
         c = shrinkers.shrink_list_field(c, 'replicas', fails, min_len=1)
